@@ -46,7 +46,18 @@ class C08(Check):
     required_probes = {'thorough': ['cols', 'n1', 'broadcast', 'heun_corrector', 'adaptive_events', 'converge']}
 
     def strata(self, tier):
-        return [('S-fixed', 5), ('S-adaptive', 3), ('S-cols', 2), ('S-depth2', 1), ('S-probe', 2)]
+        return [('S-fixed', 5), ('S-adaptive', 3), ('S-cols', 2), ('S-depth2', 1), ('S-probe', 2), ('S-torch', 1),
+                ('S-jax', 1)]
+
+    def prepare_parent(self):
+        try:
+            import torch  # noqa: once, in the parent
+        except Exception:
+            pass
+        try:
+            import jax  # noqa
+        except Exception:
+            pass
 
     def generate(self, rng, stratum, tier):
         depth = 2 if stratum == 'S-depth2' else rng.choice([0, 0, 1])
@@ -67,10 +78,12 @@ class C08(Check):
         steps = rng.randint(3, 40)
         solver = 'euler'
         kw = {}
-        if stratum == 'S-adaptive':
+        if stratum == 'S-adaptive' or (stratum == 'S-torch' and rng.random() < 0.6):
             solver = 'scipy'
             kw = {'method': rng.choice(['RK45', 'DOP853', 'RK23', 'LSODA']), 'rtol': 1e-5, 'atol': 1e-7}
-        elif rng.random() < 0.35:
+        elif stratum == 'S-jax':
+            solver = rng.choice(['euler', 'heun'])
+        elif rng.random() < 0.35 and stratum != 'S-torch':
             solver = 'heun'
         N = steps if (solver != 'scipy' or rng.random() < 0.5) else steps + rng.randint(1, 9)
         vec = rng.random() < 0.5 or stratum == 'S-cols'
@@ -109,6 +122,7 @@ class C08(Check):
             inputs.append({'id': 1, 'target': f"{n0}/{o0}/{models.LIB[net.inst[(n0, o0)]['lib']]['in']}", 'shape': '1d', 'op': o0})
         cfg = {'dt': dt, 'steps': steps, 'N': N, 'solver': solver, 'solver_kw': kw, 'vectorize': vec,
                'precision': 'float64', 'inputs': inputs, 'mode': 'probe' if stratum == 'S-probe' else 'run',
+               'backend': {'S-torch': 'torch', 'S-jax': 'jax'}.get(stratum, 'default'),
                'probe_times': [], 'adaptive_probe': False}
         if stratum == 'S-probe':
             cfg['adaptive_probe'] = rng.random() < 0.6
@@ -262,9 +276,37 @@ class C08(Check):
         T_grid = T
         rec = Recorder()
         outputs = {f'o{i}': n for i, n in enumerate(names)}
+        if cfg.get('backend') == 'jax':
+            # lax.scan traces the RHS once: no per-evaluation record.  The returned iterates are compared with the
+            # reference iterates in which sample k drives BOTH stages of step k (what the property states)
+            try:
+                R = c.run(T, dt, inputs=inputs, outputs=outputs, solver=cfg['solver'], vectorize=cfg['vectorize'],
+                          float_precision='float64', verbose=False, backend='jax')
+            except Exception as e:
+                res['discard'] = f'refused on jax: {type(e).__name__}: {str(e)[:60]}'
+                return res
+
+            def extra_at(k, traj, shift=0):
+                kk = min(k + shift, N - 1)
+                return {key: extr(key, k=kk) for key in who}
+            stepper = models.ref_euler if cfg['solver'] == 'euler' else models.ref_heun
+            traj = stepper(net, dt, steps, extra_at)
+            for i, n in enumerate(names):
+                g = np.asarray(R[f'o{i}'].values, dtype=float)
+                for row in range(min(len(g), steps)):
+                    wv = traj[row][n]
+                    if abs(g[row] - wv) > 1e-9 * max(1.0, abs(wv)):
+                        V('L-sample', 'silent', 'jax-' + cfg['solver'],
+                          f'{n} row {row}: jax {cfg["solver"]} returned {g[row]!r}, reference with sample k held during step k '
+                          f'(both stages) gives {wv!r}; extrinsic sources {who}')
+                        return res
+            res['nontrivial'] = bool(who) and steps >= 3
+            res['probes']['jax'] = 1
+            return res
         try:
             R = c.run(T, dt, inputs=inputs, outputs=outputs, solver=cfg['solver'], vectorize=cfg['vectorize'],
-                      float_precision='float64', decorator=rec, verbose=False, **cfg['solver_kw'])
+                      float_precision='float64', decorator=rec, verbose=False, backend=cfg.get('backend', 'default'),
+                      **cfg['solver_kw'])
         except Exception as e:
             return self._refused(res, e, spec, rec)
         E = rec.events
